@@ -7,6 +7,7 @@ import json, os, re, shutil, subprocess, sys, time
 
 VERIF = os.path.dirname(os.path.dirname(os.path.abspath(__file__)))
 ENV = dict(os.environ, GOFLAGS="-mod=mod", GOPROXY="off", GOSUMDB="off", GOTOOLCHAIN="local")
+SEED_ENV = dict(ENV, VERIF_EVIDENCE_DIR=os.path.join(VERIF, ".work", "seed-evidence"))
 
 
 def sh(cmd, cwd=None, timeout=3000):
@@ -87,7 +88,9 @@ def runseed(name, checks):
     try:
         for c in checks:
             t0 = time.time()
-            rc, o = sh(f"./check {c} --tier quick", cwd=VERIF)
+            p0 = subprocess.run(f"./check {c} --tier quick", shell=True, cwd=VERIF, env=SEED_ENV, stdout=subprocess.PIPE,
+                                stderr=subprocess.STDOUT, text=True, timeout=3000)
+            rc, o = p0.returncode, p0.stdout
             lines = [l for l in o.split("\n") if l.startswith("VIOLATION") or l.startswith("KNOWN-FINDING")]
             out[c] = {"exit": rc, "lines": lines[:4], "wall_s": round(time.time() - t0, 1)}
             print(c, rc, lines[:3])
@@ -100,6 +103,7 @@ def runseed(name, checks):
                     print("   ", json.dumps(out[c]["replay_excerpt"])[:600])
     finally:
         sh("git -C /repo checkout -- . && git -C /repo clean -fdq")
+        sh("./check --regen", cwd=VERIF)      # bring the generated Lean files back to the unchanged tree
     mp = os.path.join(d, "meta.json")
     meta = json.load(open(mp))
     meta.setdefault("detection", {}).update(out)
